@@ -337,6 +337,9 @@ func ParseSliceHeader(nalu []byte, spsMap map[uint32]*SPS, ppsMap map[uint32]*PP
 		if pps.RangeExtension != nil && pps.RangeExtension.ChromaQpOffsetListEnabledFlag {
 			sh.CuChromaQpOffsetEnabledFlag = r.ReadFlag()
 		}
+		// When not present, slice_deblocking_filter_disabled_flag is inferred to be equal to
+		// pps_deblocking_filter_disabled_flag (Section 7.4.7.1)
+		sh.DeblockingFilterDisabledFlag = pps.DeblockingFilterDisabledFlag
 		if pps.DeblockingFilterOverrideEnabledFlag {
 			sh.DeblockingFilterOverrideFlag = r.ReadFlag()
 		}
